@@ -15,7 +15,11 @@ use serde_json::{json, Value as J};
 
 use crate::util::{hex, mix, unhex};
 
-pub const VERIF: &str = "/verif";
+/// Root of the verification tree: $XTV_ROOT (set by ./check to its own
+/// directory, so that a snapshot of /verif is self-contained), else /verif.
+pub fn verif_root() -> String {
+    std::env::var("XTV_ROOT").ok().filter(|s| !s.is_empty()).unwrap_or_else(|| "/verif".to_string())
+}
 
 #[derive(Clone, Copy, Debug, PartialEq)]
 pub enum Tier {
@@ -294,7 +298,7 @@ pub struct Known {
 }
 
 pub fn load_known(property: &str) -> Vec<Known> {
-    let path = format!("{}/known_findings.jsonl", VERIF);
+    let path = format!("{}/known_findings.jsonl", verif_root());
     let text = std::fs::read_to_string(path).unwrap_or_default();
     let mut out = vec![];
     for line in text.lines() {
@@ -355,7 +359,7 @@ fn jobs() -> usize {
 }
 
 pub fn tmp_dir() -> PathBuf {
-    let p = PathBuf::from(format!("{}/.build/tmp/{}", VERIF, std::process::id()));
+    let p = PathBuf::from(format!("{}/.build/tmp/{}", verif_root(), std::process::id()));
     let _ = std::fs::create_dir_all(&p);
     p
 }
@@ -382,6 +386,13 @@ fn spawn_worker(exe: &Path, id: &str, tier: Tier, unit: usize, shard: u32, out: 
         cmd.arg(t);
     }
     cmd.stdin(Stdio::null()).stdout(Stdio::null()).stderr(Stdio::inherit());
+    unsafe {
+        use std::os::unix::process::CommandExt;
+        cmd.pre_exec(|| {
+            libc::prctl(libc::PR_SET_PDEATHSIG, libc::SIGKILL);
+            Ok(())
+        });
+    }
     cmd.spawn().expect("spawn worker")
 }
 
@@ -425,7 +436,7 @@ pub struct RunSummary {
 
 fn replay_path(id: &str, case: &J) -> PathBuf {
     let h = crate::util::hash_bytes(&[case.to_string().as_bytes()]);
-    let dir = PathBuf::from(format!("{}/replays/{}", VERIF, id));
+    let dir = PathBuf::from(format!("{}/replays/{}", verif_root(), id));
     let _ = std::fs::create_dir_all(&dir);
     dir.join(format!("found-{:016x}.json", h))
 }
@@ -439,7 +450,7 @@ pub fn write_replay(id: &str, message: &str, case: &J) -> PathBuf {
 
 /// Runs the committed regression replays of a property in a subprocess.
 fn run_regressions(exe: &Path, id: &str) -> (usize, Vec<(PathBuf, String)>) {
-    let dir = PathBuf::from(format!("{}/replays/{}", VERIF, id));
+    let dir = PathBuf::from(format!("{}/replays/{}", verif_root(), id));
     let mut n = 0;
     let mut bad = vec![];
     let mut files: Vec<PathBuf> = std::fs::read_dir(&dir)
@@ -746,7 +757,7 @@ pub fn run_check(check: &dyn Check, tier: Tier) -> i32 {
         "wall_s": (wall * 100.0).round() / 100.0,
         "violations": violations.len(),
     });
-    let evdir = format!("{}/evidence", VERIF);
+    let evdir = format!("{}/evidence", verif_root());
     let _ = std::fs::create_dir_all(&evdir);
     let _ = std::fs::write(format!("{}/{}.json", evdir, id), serde_json::to_string_pretty(&evidence).unwrap());
     let _ = std::fs::remove_dir_all(&tmp);
